@@ -12,7 +12,7 @@
     size). *)
 From Coq Require Import List NArith ZArith Bool String Lia.
 From PyxisModel Require Import Base Grammar SemTypes Registry Sem SemLemmas PlacementLemmas
-     InheritLemmas RustExec ExecLemmas.
+     InheritLemmas RustExec ExecLemmas PerAttempt WholeBuild WholeBuildMore.
 Import ListNotations.
 
 Theorem C06_shares_base_pointer : forall st owner v fb vfs st' vt vr base_name bvt,
@@ -40,11 +40,7 @@ Theorem C06_prefix_positionwise : forall base derived,
     sf_name b = sf_name d /\ sf_cc b = sf_cc d /\ sf_vis b = sf_vis d /\
     list_eqb sarg_eqb (sf_args b) (sf_args d) = true /\
     opt_eqb stype_eqb (sf_ret b) (sf_ret d) = true.
-Proof.
-  intros base derived H Hl k b Hk.
-  destruct (prefix_equal_nth _ _ H Hl k b Hk) as (d & Hd & He).
-  exists d. split; [exact Hd|]. apply sfunction_eqb_proj. exact He.
-Qed.
+Proof. exact prefix_positionwise. Qed.
 Print Assumptions C06_prefix_positionwise.
 
 (** a mutated slot cannot be accepted: any position where the records differ rejects the type *)
@@ -68,12 +64,7 @@ Theorem C06_own_pointer_first : forall st owner v ts pending vfs st' regions vt 
     vt = Some {| vt_functions := fs; vt_base_field := None; vt_type := TConstPtr ty |} /\
     Forall (fun x => r_name (snd x) <> None -> In x (offsets_of (st_reg st') 0 regions))
            (declared_offsets (st_reg st') (reg_ptr (st_reg st')) pending).
-Proof.
-  intros st owner v ts pending vfs st' regions vt size H Hu Hown Hsome.
-  destruct (resolve_regions_offsets _ _ _ _ _ _ _ _ _ _ H Hu) as (start & [[-> Hb]|(-> & ty & fs & Hhd & Hvt)] & Hall).
-  - destruct vt as [x|]; [|congruence]. exfalso. apply (Hb x eq_refl). apply Hown. reflexivity.
-  - exists ty, fs. auto.
-Qed.
+Proof. exact own_pointer_first. Qed.
 Print Assumptions C06_own_pointer_first.
 
 Theorem C06_accessor_value : forall R mem fu p td vt b off bp self,
@@ -82,3 +73,71 @@ Theorem C06_accessor_value : forall R mem fu p td vt b off bp self,
   vftable_ptr R mem (S fu) p self = vftable_ptr R mem fu bp (N.add self off).
 Proof. intros. eapply exec_vftable_ptr_base; eauto. Qed.
 Print Assumptions C06_accessor_value.
+
+(** ** End to end (WholeBuildMore.v): the per-attempt theorems above, for every item of every accepted
+    [collision_free] build, in terms of the FINAL registry *)
+Theorem C06_whole_build_shared : forall order ptr mods st0 st p it0 gd td0 it r td fb bp itb rsb tdb bvt,
+  input_state ptr mods = Ok st0 -> collision_free (st_reg st0) ->
+  pyxis_resolve order ptr mods = BOk st ->
+  reg_get (st_reg st0) p = Some it0 -> it_state it0 = Unresolved gd -> gi_inner gd = GIType td0 ->
+  reg_get (st_reg st) p = Some it -> it_state it = Resolved r -> rs_inner r = IType td ->
+  (* the first [#[base]] field of the item, and the item of its type, in the final registry *)
+  find r_is_base (td_regions td) = Some fb -> r_type fb = TRaw bp ->
+  reg_get (st_reg st) bp = Some itb -> item_resolved itb = Some rsb -> rs_inner rsb = IType tdb ->
+  td_vftable tdb = Some bvt ->
+  exists base_name vt R_mid module n pending vfs,
+    r_name fb = Some base_name /\
+    (* the vftable descriptor of the derived type goes through the base field *)
+    td_vftable td = Some vt /\ vt_base_field vt = Some base_name /\
+    (* [vfs]: the type's own vftable block, converted in the registry [R_mid] of the accepted
+       attempt (everything resolved there is unchanged in the final registry) *)
+    ext (st_reg st0) R_mid (st_reg st) /\
+    foldM (process_statement R_mid (module_scope module)) (gt_stmts td0) (O, ([], None))
+      = Ok (n, (pending, vfs)) /\
+    match vfs with
+    | Some fs =>
+      vt_functions vt = fs /\
+      (exists vp, vftable_path p = Some vp /\ vt_type vt = TConstPtr (TRaw vp)) /\
+      prefix_equal (vt_functions bvt) fs = true /\
+      (List.length (vt_functions bvt) <= List.length fs)%nat /\
+      forall k b, nth_error (vt_functions bvt) k = Some b ->
+        exists d, nth_error fs k = Some d /\
+          sf_name b = sf_name d /\ sf_cc b = sf_cc d /\ sf_vis b = sf_vis d /\
+          list_eqb sarg_eqb (sf_args b) (sf_args d) = true /\
+          opt_eqb stype_eqb (sf_ret b) (sf_ret d) = true
+    | None => vt_functions vt = vt_functions bvt /\ vt_type vt = vt_type bvt
+    end /\
+    (* no vftable pointer of its own: the declared fields are laid out from offset 0 *)
+    Forall (fun x => r_name (snd x) <> None -> In x (offsets_of (st_reg st) 0%N (td_regions td)))
+           (declared_offsets (st_reg st) 0%N pending).
+Proof. exact WholeBuildMore.C06_whole_build_shared. Qed.
+Print Assumptions C06_whole_build_shared.
+
+Theorem C06_whole_build_own_pointer : forall order ptr mods st0 st p it0 gd td0 it r td s rest gfs,
+  input_state ptr mods = Ok st0 -> collision_free (st_reg st0) ->
+  pyxis_resolve order ptr mods = BOk st ->
+  reg_get (st_reg st0) p = Some it0 -> it_state it0 = Unresolved gd -> gi_inner gd = GIType td0 ->
+  reg_get (st_reg st) p = Some it -> it_state it = Resolved r -> rs_inner r = IType td ->
+  (* the description starts with a vftable block *)
+  gt_stmts td0 = s :: rest -> gs_field s = GVftable gfs ->
+  (* there is no first [#[base]] field, or its type has no vftable in the final registry *)
+  (forall fb bp itb rsb tdb,
+     find r_is_base (td_regions td) = Some fb -> r_type fb = TRaw bp ->
+     reg_get (st_reg st) bp = Some itb -> item_resolved itb = Some rsb -> rs_inner rsb = IType tdb ->
+     td_vftable tdb = None) ->
+  exists vp fs R_mid module n pending,
+    vftable_path p = Some vp /\
+    td_vftable td = Some {| vt_functions := fs; vt_base_field := None; vt_type := TConstPtr (TRaw vp) |} /\
+    (* the pointer is region 0, at offset 0, one pointer long *)
+    hd_error (td_regions td) = Some (vftable_region_of (TConstPtr (TRaw vp))) /\
+    hd_error (offsets_of (st_reg st) 0%N (td_regions td)) = Some (0%N, vftable_region_of (TConstPtr (TRaw vp))) /\
+    region_sa (st_reg st) (vftable_region_of (TConstPtr (TRaw vp))) = (reg_ptr (st_reg st), reg_ptr (st_reg st)) /\
+    (* every declared field comes after it *)
+    ext (st_reg st0) R_mid (st_reg st) /\
+    foldM (process_statement R_mid (module_scope module)) (gt_stmts td0) (O, ([], None))
+      = Ok (n, (pending, Some fs)) /\
+    Forall (fun x => r_name (snd x) <> None -> In x (offsets_of (st_reg st) 0%N (td_regions td)))
+           (declared_offsets (st_reg st) (reg_ptr (st_reg st)) pending).
+Proof. exact WholeBuildMore.C06_whole_build_own_pointer. Qed.
+Print Assumptions C06_whole_build_own_pointer.
+
